@@ -93,7 +93,20 @@ func u32s(l []uint32) string {
 }
 
 func counterOps(ops []string) string {
-	c := share.NewCompactShareCounter()
+	// the same history on a counter from the constructor, on the zero value and on new(T): the type is
+	// exported with no exported fields, and its zero value is what the constructor returns on the pinned tree
+	var zero share.CompactShareCounter
+	res := counterOpsOn(share.NewCompactShareCounter(), ops)
+	if z := counterOpsOn(&zero, ops); z != res {
+		return res + " zero-value-counter:" + z
+	}
+	if z := counterOpsOn(new(share.CompactShareCounter), ops); z != res {
+		return res + " new-counter:" + z
+	}
+	return res
+}
+
+func counterOpsOn(c *share.CompactShareCounter, ops []string) string {
 	outs := make([]string, len(ops))
 	for i, op := range ops {
 		if op == "r" {
